@@ -150,4 +150,36 @@ theorem confirmPending_spec (s : Store) (tr : TxRec) (hw : WFw rank s) (hne : No
 
 end confirm
 
+-- ------------------------------------------------------------------ insertMinedTx = mined part ; confirmPending
+
+theorem spendOne_pendSide (tr : TxRec) (blk : BlockMeta) (sb sb' : Store × Bals) (rel : Rel)
+    (h : spendOne tr blk sb rel = .ok sb') : pendSide sb'.1 = pendSide sb.1 := by
+  unfold spendOne at h
+  repeat' (first | cases h | split at h | simp only [] at h)
+  all_goals rfl
+
+theorem updateMinedBalance_pendSide (s : Store) (bals : Bals) (tr : TxRec) (blk : BlockMeta) (r : Store × Bals)
+    (h : updateMinedBalance s bals tr blk = .ok r) : pendSide r.1 = pendSide s := by
+  unfold updateMinedBalance at h
+  exact foldlM_ok_inv (fun (a : Store × Bals) => pendSide a.1 = pendSide s) _ _ _ _ rfl
+    (fun a x b' ha hf => (spendOne_pendSide tr blk a b' x hf).trans ha) h
+
+/-- insertMinedTx on a transaction that has no record yet = the mined bookkeeping (which leaves the pending
+    stores alone) followed by `confirmPending` -/
+theorem insertMinedTx_pending (own : Own) (s : Store) (bals : Bals) (tr : TxRec) (blk : BlockMeta)
+    (s' : Store) (bals' : Bals) (h : insertMinedTx own s bals tr blk = .ok (s', bals', false)) :
+    ∃ s1, pendSide s1 = pendSide s ∧ s' = confirmPending own s1 tr := by
+  unfold insertMinedTx at h
+  split at h
+  · simp [pure, Except.pure] at h
+  · simp only [bind, Except.bind] at h
+    cases hu : updateMinedBalance (recordMinedTx s tr blk) bals tr blk with
+    | error e => rw [hu] at h; cases h
+    | ok r =>
+      rw [hu] at h
+      simp only [pure, Except.pure, Except.ok.injEq, Prod.mk.injEq] at h
+      refine ⟨r.1, ?_, h.1.symm⟩
+      rw [updateMinedBalance_pendSide _ _ _ _ _ hu]
+      unfold recordMinedTx; rfl
+
 end MW.Lemmas.LedgerPending
